@@ -129,6 +129,10 @@ def check_single(line, hout, dout, stats, notes):
             if exit_ in ("pred", "none"):
                 exit_ = "return-at-" + (mlog[-1][0] if mlog and not mlog[-1][1] else "size-check")
             br["%s:%s" % (cls, exit_)] = br.get("%s:%s" % (cls, exit_), 0) + 1
+            if cls.startswith("gpf-"):
+                w, rest_m = consulted_failures(cls, mlog)
+                key = "%s:wrapped-%s/likelihood-%s" % (cls, ("return-at-" + w[0]) if w else "success", ("return-at-" + rest_m[0]) if rest_m else "success")
+                br[key] = br.get(key, 0) + 1
     return bad
 
 
